@@ -413,6 +413,44 @@ def formula_size(f) -> int:
     return 1 + sum(formula_size(x) for x in f[1:] if isinstance(x, list))
 
 
+def features(f, under_forall: bool = False, under_exists: bool = False, out=None) -> List[str]:
+    """Input-class features of a formula (used to identify known findings by the class
+    of constraint that fails, never by seed)."""
+    if out is None:
+        out = set()
+    op = f[0]
+    if op in ("forall", "exists"):
+        if f[3] is not None:
+            out.add(f"{op}_with_match_expression")
+        features(f[5], under_forall or op == "forall", under_exists or op == "exists", out)
+    elif op in ("forall_int", "exists_int"):
+        out.add(op)
+        features(f[2], under_forall, under_exists, out)
+    elif op in ("and", "or", "not", "implies", "iff", "xor"):
+        if op in ("not", "implies", "iff", "xor"):
+            out.add("non_monotone_connective")
+        for g in f[1:]:
+            features(g, under_forall, under_exists, out)
+    elif op == "count":
+        kind = "literal" if f[3][0] == "i" else "intvar"
+        out.add(f"count_{kind}")
+        if under_forall:
+            out.add(f"count_{kind}_under_forall")
+        if f[1][1] == "start":
+            out.add("count_on_start")
+    elif op == "pred":
+        out.add("pred_" + f[1])
+    elif op == "smt":
+        def walk(t):
+            if isinstance(t, list) and t:
+                if isinstance(t[0], str) and t[0] not in ("v", "s", "i"):
+                    out.add("smt_" + t[0])
+                for x in t[1:]:
+                    walk(x)
+        walk(f[1])
+    return sorted(out)
+
+
 def uses(f, op: str) -> bool:
     if not isinstance(f, list):
         return False
